@@ -111,7 +111,8 @@ func TestC06(t *testing.T) {
 		}
 		zipPath := filepath.Join(dir, "build.zip")
 		zipOf(pristine, zipPath)
-		target := filepath.Join(dir, "target")
+		// (the directory's own name is nobody's business: percent signs, spaces, colons)
+		target := filepath.Join(dir, rapid.SampledFrom([]string{"target", "target", "target", "100% Orange Juice", "50%", "1:x y", "a#b?c"}).Draw(rt, "targetname"))
 		if mode != 2 {
 			Must(damaged.Materialize(target), "materialize damaged")
 		}
